@@ -215,6 +215,20 @@ func visitInstr(fr *frame, instr ssa.Instruction) continuation {
 			panic(unsupported("slice expression with symbolic bound"))
 		}
 		x := fr.get(instr.X)
+		if bx, ok := x.(bstr); ok {
+			l, h := int64(0), int64(len(bx))
+			if lo != nil {
+				l = asInt64(lo)
+			}
+			if hi != nil {
+				h = asInt64(hi)
+			}
+			if l < 0 || h > int64(len(bx)) || l > h {
+				panic("runtime error: slice bounds out of range")
+			}
+			fr.env[instr] = mkBstr([]value(bx)[l:h])
+			break
+		}
 		if sx, ok := x.(*sym); ok {
 			if sx.k != sStr {
 				panic(unsupported("slice of symbolic non-string"))
@@ -354,6 +368,8 @@ func visitInstr(fr *frame, instr ssa.Instruction) continuation {
 			fr.env[instr] = x[fr.index(idx, len(x))]
 		case string:
 			fr.env[instr] = x[fr.index(idx, len(x))]
+		case bstr:
+			fr.env[instr] = x[fr.index(idx, len(x))]
 		case *sym:
 			panic(unsupported("index into symbolic string"))
 		default:
@@ -364,6 +380,8 @@ func visitInstr(fr *frame, instr ssa.Instruction) continuation {
 		x := fr.get(instr.X)
 		switch x := x.(type) {
 		case string:
+			fr.env[instr] = x[fr.index(fr.get(instr.Index), len(x))]
+		case bstr:
 			fr.env[instr] = x[fr.index(fr.get(instr.Index), len(x))]
 		case *sym:
 			panic(unsupported("index into symbolic string"))
